@@ -1759,18 +1759,22 @@ class C15(Check):
         "(D_is_analytic_derivative_rational); reference counts = mentions by registered constraints, C object iff count > 0, registration never fails, "
         "values survive removal (registration_refcount_inv, refcount_eq_number_of_constraints, cobject_iff_refcount_pos, register_never_fails, "
         "values_survive_removal); set_structure numbers variables/constraints 0..n-1 without gaps or repeats (set_structure_unique_indices) and residual / "
-        "CSR rows of PLAIN constraints are the constraint's own programs on its own leaves with col_ndx/row_nnz as reported (csr_rows_partial, "
-        "row_entries_are_eval_and_derivative). The pre-fix defects stay visible as counterexample theorems (getRpn_asCoded_counterexample, "
+        "CSR rows of ALL constraints are the constraint's own programs on its own leaves with col_ndx/row_nnz as reported -- plain constraints "
+        "(csr_rows_partial) and conditional ones, whose condition_ndx/jac_ndx strides select the FIRST branch whose condition evaluates to 1 "
+        "(csr_rows_conditional, conditional_selects_first_true, csr_rows; row_entries_are_eval_and_derivative); over the reals D is the analytic "
+        "derivative for all 18 operators on the interior of the domain (D_is_analytic_derivative_real, jacobian_entry_is_true_partial_derivative; "
+        "abs/sign at 0, inequality boundaries and the unselected if_else branch are excluded points). The pre-fix defects stay visible as counterexample theorems (getRpn_asCoded_counterexample, "
         "reverseSd_asCoded_counterexample, register_asCoded_counterexample). The models are tied to the code on every run: reflected operator lists / trees / "
         "RPN / derivative trees and whole Model histories are replayed through the Lean driver and diffed against the real aml.Model with the evaluator "
         "compiled from the tree's C++ sources; an independent dual-number oracle judges residuals, Jacobian, indices and reference counts on the implementation.",
         design_ref="DESIGN.md §5 C15, §4 M6",
         note="modelled, not verified: IEEE arithmetic and libm (theorems are over a field with abstract pow/exp/log/trig, `LawfulOps`; Float only in the driver, "
         "compared at 1e-10..1e-12 relative); pointer order of std::set is an abstract address order fed from the real pointers; Float leaves are "
-        "represented by value inside the C++ constraint model; SWIG marshalling is exercised, not modelled. NOT proved: the CSR rows of conditional "
-        "(IfElse) constraints (condition_ndx/jac_ndx strides are modelled and compared with the C++ on every run only); that the leaves vector of a "
-        "registered constraint resolves to the right C objects (address injectivity) is a hypothesis of row_entries_are_eval_and_derivative; D is connected to "
-        "Mathlib's analytic derivative for the polynomial/rational fragment only; reverseSd_is_derivative has the domain side condition sdDomAll "
+        "represented by value inside the C++ constraint model; SWIG marshalling is exercised, not modelled. NOT proved: that a conditional "
+        "constraint always has a true branch is a hypothesis of csr_rows_conditional (firstTrue_isSome derives it from 'every condition evaluates and the "
+        "last is Float(1)'); that the leaves vector of a "
+        "registered constraint resolves to the right C objects (address injectivity) is a hypothesis of row_entries_are_eval_and_derivative; D is connected to Mathlib's analytic derivative over any normed field "
+        "for the polynomial/rational fragment and over the reals (realOps: Real.rpow/exp/log/trig) for everything; reverseSd_is_derivative has the domain side condition sdDomAll "
         "(no power whose base folded to the native number 0; native if_else conditions are 0/1); NaN/inf are outside the field model: the IF_ELSE opcode is proved "
         "lazy in the unselected VALUE (ifElse_opcode_lazy, evalRpn_ifElse_lazy) but 0*NaN in the reverse_sd Jacobian of an if_else with an undefined "
         "unselected branch is only seen by the oracle (known finding jacobian-nan-unselected-branch)",
